@@ -33,8 +33,15 @@ impl FlightIngestService {
             return Ok(0);
         }
 
-        let batches = flight_data_to_batches(&payload)
-            .map_err(|e| crate::Error::InvalidSchema(format!("Flight IPC decode failed: {e}")))?;
+        // The IPC decoder panics on some malformed frames (buffer offsets past the
+        // body, unknown type ids, inconsistent null bitmaps); a hostile DoPut has to
+        // be answered with an error, not with a panicking request task.
+        let batches =
+            std::panic::catch_unwind(std::panic::AssertUnwindSafe(|| flight_data_to_batches(&payload)))
+                .map_err(|_| {
+                    crate::Error::InvalidSchema("Flight IPC decode failed: malformed frame".into())
+                })?
+                .map_err(|e| crate::Error::InvalidSchema(format!("Flight IPC decode failed: {e}")))?;
 
         let mut total_rows = 0u64;
         for batch in batches {
